@@ -58,6 +58,8 @@ pub fn spec(prop: &str) -> Spec {
         "C09" => (vec![s("keeper:C09", 1)], 1000, 40000),
         "C10" => (vec![s("keeper:C10", 1)], 1500, 60000),
         "C11" => (vec![s("proxy:C11", 1)], 1000, 30000),
+        "C12" => (vec![s("keeper:C12", 1)], 800, 30000),
+        "C13" => (vec![s("hostile:C13", 1)], 800, 30000),
         "C14" => (vec![s("proxy:C14", 1)], 1200, 40000),
         "C15" => (vec![s("proxy:C15", 1)], 800, 20000),
         _ => (vec![], 0, 0),
